@@ -178,7 +178,8 @@ def run(tier):
     # per-buffer (reentrant, c99) and per-scanner (non-reentrant) counts under buffer histories (round-7 seed C09-r7m1): the buffer driver
     # with %option yylineno; the count is compared at every action, after every yyinput(), and as the user reads it back between calls.
     # No buffer operation consumes input, so none of them (flush, switch, push, pop, restart) may change the count of any buffer.
-    dev = 3 if tier == "quick" else 4
+    # bound 3 in both tiers (the thorough tier adds read sizes); see the note in c08.py
+    dev = 3
     full = 0x1fff & ~(1 << 12)
     bjobs = []
     for api in ("NR", "R", "C99"):
